@@ -7,7 +7,7 @@
 (*   (b) compares the code's observation with Obs*(...) computed by the operators of Paths.tla - a difference   *)
 (*       is recorded as "NC:<field>@SHAPE@EXC" (a non-conformance, never a violation by itself).                *)
 (* Total acceptance: nothing blocks.  SHAPE (computed here, from the inputs) is ONECHAR when some input has      *)
-(* exactly one non-separator character, else OTHER; EXC names the first unexpected exception in the record.      *)
+(* exactly one non-separator character, else OTHER; EXC names the first unexpected exception among the fields the law reads.      *)
 (* At most Cap witnesses are kept per (clause string, convention) in one TLC run; the rest are counted.          *)
 EXTENDS Paths, Json, IOUtils, TLC
 VARIABLES tid, l
@@ -23,22 +23,23 @@ Conv(t)  == <<Traces[t][1].c, Traces[t][1].c2>>
 
 NonSepCount(s) == Cardinality({i \in 1..Len(s) : ~IsSepCh(s[i])})
 Shape == IF \E s \in {Ev.p, Ev.q, Ev.r} : NonSepCount(s) = 1 THEN "ONECHAR" ELSE "OTHER"
-ExcTag ==
-  LET codes == {Ev.o[f][2] : f \in {g \in DOMAIN Ev.o : g # "rawrep" /\ Ev.o[g][1] = 3}}
+\* the first unexpected exception among the fields `reads` of the code's observation
+ExcTag(reads) ==
+  LET codes == {Ev.o[f][2] : f \in {g \in DOMAIN Ev.o \cap reads : Ev.o[g][1] = 3}}
   IN IF 1 \in codes THEN "IndexError" ELSE IF 2 \in codes THEN "ValueError" ELSE IF 9 \in codes THEN "OtherError" ELSE "none"
 
-Viol(clause) ==
-  LET full == clause \o "@" \o Shape \o "@" \o ExcTag
+Viol(clause, reads) ==
+  LET full == clause \o "@" \o Shape \o "@" \o ExcTag(reads)
       cur  == TLCGet(1)
       same == {v \in cur : v[3] = full /\ Conv(v[1]) = Conv(tid)}
   IN IF Cardinality(same) < Cap THEN TLCSet(1, cur \cup {<<tid, l, full>>}) ELSE TLCSet(3, TLCGet(3) + 1)
-Check(cond, clause) == IF cond THEN TRUE ELSE Viol(clause)
+Check(cond, clause, reads) == IF cond THEN TRUE ELSE Viol(clause, reads)
 
 \* (b): field-by-field comparison with the specification's own observation
 Conform(o, spec) ==
   IF o = spec THEN TRUE
-  ELSE IF DOMAIN o # DOMAIN spec THEN Viol("Bridge")
-  ELSE \A f \in {g \in DOMAIN spec : o[g] # spec[g]} : Viol("NC:" \o f)
+  ELSE IF DOMAIN o # DOMAIN spec THEN Viol("Bridge", {})
+  ELSE \A f \in {g \in DOMAIN spec : o[g] # spec[g]} : Viol("NC:" \o f, {f})
 
 \* The state <<tid, l>> means: line l of trace tid is being judged; vc, vc2, vp, vq, vr are bound to its logged inputs.
 Bound(e) == vc = CfgOf(e.c) /\ vc2 = CfgOf(e.c2) /\ vp = e.p /\ vq = e.q /\ vr = e.r
@@ -54,15 +55,15 @@ TraceNext ==
 TraceSpec == TraceInit /\ [][TraceNext]_tvars
 
 \* Judging is done in a state predicate (cfg: INVARIANT Judge; always TRUE, failures go to the registers): TLC evaluates
-\* the LET-bound sub-results of Obs* once per state there, but once per use inside an action (10x slower).
-JU == /\ \A law \in LawsU : Check(HoldsU(law, vc, vp, Ev.o), law)
+\* the LET-bound sub-results of Obs* once per state there, but once per use inside an action (several times slower).
+JU == /\ \A law \in LawsU : Check(HoldsU(law, vc, vp, Ev.o), law, Reads(law, 0))
       /\ Conform(Ev.o, ObsU(vc, vp))
-JB == /\ \A law \in LawsB : Check(HoldsB(law, vc, vp, vq, Ev.o), law)
-      /\ Check(K(Ev.o.f) # 1 \/ Ev.o.sib = Str(V(Ev.o.f) \o vq), "Bridge")       \* the sibling really is folder + q
+JB == /\ \A law \in LawsB : Check(HoldsB(law, vc, vp, vq, Ev.o), law, Reads(law, 0))
+      /\ Check(K(Ev.o.f) # 1 \/ Ev.o.sib = Str(V(Ev.o.f) \o vq), "Bridge", {})   \* the sibling really is folder + q
       /\ Conform(Ev.o, ObsB(vc, vp, vq))
-JT == /\ \A law \in LawsT : Check(HoldsT(law, vc, vp, vq, vr, Ev.o), law)
+JT == /\ \A law \in LawsT : Check(HoldsT(law, vc, vp, vq, vr, Ev.o), law, Reads(law, 0))
       /\ Conform(Ev.o, ObsT(vc, vp, vq, vr))
-JX == /\ \A law \in LawsX : Check(HoldsX(law, vc, vc2, vp, vr, vq, Ev.o), law)
+JX == /\ \A law \in LawsX, side \in {0, 1} : Check(HoldsX(law, side, vc, vc2, vp, vr, vq, Ev.o), law, Reads(law, side))
       /\ Conform(Ev.o, ObsX(vc, vc2, vp, vr, vq))
 Judge ==
   /\ CASE Ev.kind = "U" -> JU [] Ev.kind = "B" -> JB [] Ev.kind = "T" -> JT [] Ev.kind = "X" -> JX
